@@ -29,6 +29,7 @@ def pick_streams(tier):
     v('runs', bzgen.build([([Block(b'a' * 300 + b'b' * 4 + b'c' * 5 + b'a' * 259 + b'z' * 260)], 1)])[0])
     v('6tables', bzgen.build([([Block(bytes((i * 7) % 11 for i in range(330)), tables=[bzgen.flat_code(13)] * 6,
                                     selectors=[0, 1, 2, 3, 4, 5, 5])], 1)])[0])
+    v('all20bit', bzgen.build([([decdiff.all20_block(160), Block(b'next block')], 1)])[0])
     v('py-text', bz2.compress(b'The quick brown fox jumps over the lazy dog. ' * 40, 1))
     v('py-3blk', bz2.compress(inputs.kind('N', 250000), 1))
     v('py-rnd600', bz2.compress(inputs.lcg(600), 9))
@@ -62,6 +63,9 @@ def run(tier):
     # ---- (a) function level
     fl = [d for (n, d), r in zip(valid + invalid, refs) if len(d) >= 14 and len(d) < 3000 and not n.startswith('py-3blk')]
     extra = [d for _, d, _ in decdiff.candidates(tier)[1] if 20 < len(d) < 120][:: (40 if quick else 8)]
+    # groups of fifty 20-bit codes (1000 bits, the most the fast path of retrieve() must allow for) at every bit
+    # alignment, so that a piece of input ends at every distance from the start of such a group
+    extra += [bzgen.build([([decdiff.all20_block(110, k)], 1)])[0] for k in range(32)]
     st = codecx.c09(chk, tier, fl + extra)
     if st is None:
         chk.cap('function-level leg unbound')
